@@ -13,6 +13,7 @@ import (
 	"testing"
 	"time"
 
+	"github.com/TheCacophonyProject/go-cptv/cptvframe"
 	"github.com/TheCacophonyProject/thermal-recorder/headers"
 	"pgregory.net/rapid"
 	kit "verifkit"
@@ -117,6 +118,11 @@ func vfC16Valid(c vfC16Case) string {
 	return ""
 }
 
+type vfHeld struct {
+	f *cptvframe.Frame
+	v uint16
+}
+
 type vfC16Obs struct {
 	msg       string
 	snaps     int64
@@ -191,6 +197,7 @@ func vfC16Run(c vfC16Case, withReq bool) *vfC16Obs {
 				}
 				last := -1
 				sink := 0
+				var held []vfHeld
 				for atomic.LoadInt32(&stop) == 0 {
 					for _, rq := range script {
 						if atomic.LoadInt32(&stop) != 0 {
@@ -217,6 +224,20 @@ func vfC16Run(c vfC16Case, withReq bool) *vfC16Obs {
 								for x := range f.Pix[y] {
 									if f.Pix[y][x] != v {
 										setFail(fmt.Sprintf("snapshot is a mixture of frames: pixel (0,0)=%d but (%d,%d)=%d", v, x, y, f.Pix[y][x]))
+									}
+								}
+							}
+							// an exact copy stays what it was: keep it and look again later, after the ring has wrapped
+							held = append(held, vfHeld{f, v})
+							if len(held) > 48 {
+								held = held[1:]
+							}
+							for _, h := range held {
+								for y := range h.f.Pix {
+									for x := range h.f.Pix[y] {
+										if h.f.Pix[y][x] != h.v {
+											setFail(fmt.Sprintf("a snapshot that showed the frame with value %d when it was returned later shows %d at (%d,%d): it is not a copy, it aliases the frame buffer", h.v, h.f.Pix[y][x], x, y))
+										}
 									}
 								}
 							}
@@ -435,6 +456,6 @@ func vfRunC16(c vfC16Case) *kit.Result {
 
 func TestVF_C16(t *testing.T) {
 	kit.Drive(t, "C16", "TestVF_C16",
-		"generated schedules: 1-4 requester goroutines looping over scripts of {TakeSnapshot(-1 / last id), TakeTestRecording, CameraInfo, spin, yield, sleep} while 1-3 camera connections (reconnects, 'clear' markers, sender pauses at the lock-step barrier) feed uniform-valued frames of increasing value, GOMAXPROCS in {1,2,4,16}, ring capacity >= 2; built with the race detector. Oracle: every returned snapshot is uniform (a whole frame) and at least as new as the newest frame known to be completely processed when the request started; CameraInfo returns a description some camera sent; the pipeline neither stalls nor dies; continuous files equal the request-free twin and every motion file of the twin is present unchanged (extra files are 21-frame test recordings); zero race reports. Non-trivial: a snapshot was returned for a request that overlapped the processing of a frame (measured with atomics around the barrier).",
+		"generated schedules: 1-4 requester goroutines looping over scripts of {TakeSnapshot(-1 / last id), TakeTestRecording, CameraInfo, spin, yield, sleep} while 1-3 camera connections (reconnects, 'clear' markers, sender pauses at the lock-step barrier) feed uniform-valued frames of increasing value, GOMAXPROCS in {1,2,4,16}, ring capacity >= 2; built with the race detector. Oracle: every returned snapshot is uniform (a whole frame), stays unchanged while later frames arrive (an exact copy, re-checked after the ring has wrapped), and is at least as new as the newest frame known to be completely processed when the request started; CameraInfo returns a description some camera sent; the pipeline neither stalls nor dies; continuous files equal the request-free twin and every motion file of the twin is present unchanged (extra files are 21-frame test recordings); zero race reports. Non-trivial: a snapshot was returned for a request that overlapped the processing of a frame (measured with atomics around the barrier).",
 		vfGenC16, vfRunC16)
 }
